@@ -188,6 +188,7 @@ func analyseScanHelper(p *Prog, f *ssa.Function) *scanHelper {
 
 func checkC04(c *Ctx) {
 	p := c.P
+	checkNoKnownNilErrorReturn(c, "R3", func(f *ssa.Function) bool { return inSeatManagerPkg(p, f) && f.Parent() == nil }, 5)
 	smT := p.singleImpl("/seat_manager", "SeatManager")
 	if smT == nil {
 		c.Bad("R1", "anchors", "-", "seat manager not found")
